@@ -31,6 +31,7 @@ class DefaultSettings(MagicProperties):
         # rebuild from the hard coded defaults only (not merged into the current values),
         # so that properties without a hard coded entry are reset as well
         for key, val in get_defaults_dict().items():
+            setattr(self, key, None)
             setattr(self, key, val)
         return self
 
